@@ -2,6 +2,7 @@ package main
 
 import (
 	"fmt"
+	"runtime/debug"
 )
 
 // Cooperative threads. Every symbolic goroutine (including the harness main) runs in its own host
@@ -58,6 +59,11 @@ func (ex *Exec) threadMain(t *Thread) {
 		case threadKilled:
 			ex.sch.events <- event{kind: evKilled}
 		default:
+			switch r.(type) {
+			case pathEnd, goPanic, unsupportedErr:
+			default:
+				fmt.Printf("ENGINE PANIC: %v\n%s\n", r, debug.Stack())
+			}
 			ex.sch.events <- event{kind: evPanic, val: r}
 		}
 	}()
